@@ -1552,7 +1552,50 @@ CALL_RX = (r"\(\s*\(\s*\(\s*X\s*\*\s*\)\s*(\w+)\s*->\s*object\s*\)\s*->\*\s*\(\s
            r"\s*&\s*\1\s*->\s*slot\s*\)\s*->\s*ptr\s*\)\s*\(([^()]*)\)\s*;")
 
 
-def emit_loop(hpp):
+def helper_tokens(cpp, name):
+    what = f"SignalActivation::{name}"
+    ptext, inits, body = extract(cpp, what, r"Callback::Emitter::SignalActivation::" + name)
+    if ptext.strip() or inits:
+        raise Refuse(f"{what}: parameters")
+    return tokenize(body)
+
+
+def emit_cursor_form(hpp, cpp, bodies):
+    """the nine templates as `for(Slot* s = activation.firstSlot(); s; s = activation.nextSlot()) CALL(s);` with the cursor
+    kept in the activation (`current`) and moved by the three helpers of Callback.cpp.  Returns (visit, after) in the
+    vocabulary of `emit_lean`: what is done at a node while looking for the next slot, what is done when a slot returned."""
+    for ar, (ptext, body) in enumerate(bodies):
+        what = f"emit template #{ar}"
+        m = re.fullmatch(r"\s*SignalActivation\s+activation\s*\(\s*this\s*,\s*signal\s*\)\s*;\s*for\s*\(\s*Slot\s*\*\s*(\w+)\s*=\s*activation\s*\.\s*firstSlot\s*\(\s*\)\s*;"
+                         r"\s*\1\s*;\s*\1\s*=\s*activation\s*\.\s*nextSlot\s*\(\s*\)\s*\)\s*\{?(.*?)\}?\s*", body, flags=re.S)
+        if not m:
+            return None
+        v, call = m.group(1), m.group(2).strip()
+        m3 = re.fullmatch(CALL_RX, call)
+        if not m3 or m3.group(1) != v or int(m3.group(2)) != ar:
+            raise Refuse(f"{what}: the loop body is not the member-pointer call on `{v}->object` / `{v}->slot`")
+        if [x.strip() for x in m3.group(3).split(",") if x.strip()] != list("ABCDEFGH"[:ar]):
+            raise Refuse(f"{what}: template arguments of the cast")
+        if [x.strip() for x in m3.group(4).split(",") if x.strip()] != [f"arg{k}" for k in range(ar)]:
+            raise Refuse(f"{what}: the slot is not called with the parameters of emit in order")
+    if helper_tokens(cpp, "firstSlot") != tokenize("current = begin; return skipToConnected();"):
+        raise Refuse("SignalActivation::firstSlot is not `current = begin; return skipToConnected();`")
+    if helper_tokens(cpp, "nextSlot") != tokenize("if(invalidated) return 0; ++current; return skipToConnected();"):
+        raise Refuse("SignalActivation::nextSlot is not `if(invalidated) return 0; ++current; return skipToConnected();`")
+    t = helper_tokens(cpp, "skipToConnected")
+    head = tokenize("for(; current != end; ++current) if(")
+    tail = tokenize(") return &*current; return 0;")
+    if t[:len(head)] != head or t[-len(tail):] != tail:
+        raise Refuse("SignalActivation::skipToConnected is not `for(; current != end; ++current) if(C) return &*current; return 0;`")
+    ps = Parser(t[len(head):-len(tail)], "SignalActivation::skipToConnected", {"current"})
+    c = ps.expr()
+    if ps.peek() is not None:
+        raise Refuse("SignalActivation::skipToConnected: condition")
+    cond = Tr("SignalActivation::skipToConnected").pure_bool(c, {"current": V("sval", x="x")})
+    return [("call", cond)], [("ret",)]
+
+
+def emit_loop(hpp, cpp=None):
     """Per arity: the loop body of `emit` as (condition on the node, what is called, arguments passed, position of the
     `invalidated` test).  The member-pointer call is matched textually (its casts are outside any expression grammar worth
     having); everything around it is parsed."""
@@ -1561,10 +1604,16 @@ def emit_loop(hpp):
         raise Refuse(f"{len(bodies)} `emit` templates in Callback.hpp, expected 9")
     result = None
     for ar, (ptext, body) in enumerate(bodies):
-        what = f"emit template #{ar}"
         names = split_params(ptext)
         if names != ["signal"] + [f"arg{i}" for i in range(ar)]:
-            raise Refuse(f"{what}: parameters {names}")
+            raise Refuse(f"emit template #{ar}: parameters {names}")
+    if cpp is not None and "firstSlot" in hpp:
+        cf = emit_cursor_form(hpp, cpp, bodies)
+        if cf is not None:
+            return cf
+    for ar, (ptext, body) in enumerate(bodies):
+        what = f"emit template #{ar}"
+        names = split_params(ptext)
         m = re.fullmatch(r"\s*SignalActivation\s+activation\s*\(\s*this\s*,\s*signal\s*\)\s*;\s*for\s*\(\s*List\s*<\s*Slot\s*>\s*::\s*Iterator\s+(\w+)\s*=\s*"
                          r"activation\s*\.\s*begin\s*;\s*\1\s*!=\s*activation\s*\.\s*end\s*;\s*\+\+\s*\1\s*\)\s*\{(.*)\}\s*", body, flags=re.S)
         if not m:
@@ -1613,28 +1662,40 @@ def emit_loop(hpp):
 
 def emit_lean(parts):
     """`emitScan inv xs j`: the loop of `emit` from node j on (xs = the nodes from there), the statements of the loop body in
-    their order; `emitAfterCall`: the statements behind the call, then the following nodes."""
+    their order; `emitAfterCall`: the statements behind the call, then the following nodes.  `parts` = the statements of the
+    loop body, or (cursor form) the pair (what is done at a node while looking for the next slot, what is done first when a slot
+    returned)."""
+    after = None
+    if isinstance(parts, tuple):
+        parts, after = parts
     if [p[0] for p in parts].count("call") != 1:
         raise Refuse("emit: the loop body does not contain exactly one call statement")
     ci = [p[0] for p in parts].index("call")
+    if after is not None:
+        # after a call: `after`, then the scan; lay it out as one list whose tail behind the call is `after`
+        visit = parts
+        parts = visit[:ci + 1] + after
+        scan_parts = visit
+    else:
+        scan_parts = parts
 
-    def body(k, last):
-        if k == len(parts):
+    def body(k, last, ps=None):
+        if k == len(ps):
             return last
-        p = parts[k]
+        p = ps[k]
         if p[0] == "ret":
-            return f"if inv then Step.done else {body(k + 1, last)}"
-        return f"if {p[1]} then Step.call x.object x.slot (some (j + 1)) else {body(k + 1, last)}"
+            return f"if inv then Step.done else {body(k + 1, last, ps)}"
+        return f"if {p[1]} then Step.call x.object x.slot (some (j + 1)) else {body(k + 1, last, ps)}"
     out = ["/-- the `for` loop of the nine `emit` templates from node `j` on (`xs` = the nodes from there on) up to the next call of a\n"
            "    slot; `inv` = `activation.invalidated`, which cannot change while no slot runs.  A call returns the position of the\n"
            "    following node: the loop resumes there with `emitAfterCall`. -/",
            "def emitScan (inv : Bool) : List Slot → Nat → Step (Option Nat)",
            "  | [], _ => Step.done",
-           f"  | x :: xs, j => {body(0, 'emitScan inv xs (j + 1)')}", "",
+           f"  | x :: xs, j => {body(0, 'emitScan inv xs (j + 1)', scan_parts)}", "",
            "/-- after the slot called for node `j - 1` returned: the statements of the loop body behind the call, then the nodes from\n"
            "    `j` on -/",
            "def emitAfterCall (inv : Bool) (slots : List Slot) (j : Nat) : Step (Option Nat) :=",
-           f"  {body(ci + 1, 'emitScan inv (slots.drop j) j')}", "",
+           f"  {body(ci + 1, 'emitScan inv (slots.drop j) j', parts)}", "",
            "/-- every one of the nine templates passes its parameters `arg0 …` to the slot, all of them, in their order (checked by the\n"
            "    translator on the text of each template; a template that does not is refused) -/",
            "def emitArgsInOrder : Bool := true", ""]
@@ -1676,7 +1737,7 @@ def generate(repo, out):
                  "def connectT (h : State) (src signal dest slot : Nat) : State :=\n  connect h " + " ".join(c) + "\n\n")
     parts.append("/-- the nine `disconnect` templates -/\n"
                  "def disconnectT (h : State) (src signal dest slot : Nat) : State :=\n  disconnect h " + " ".join(d) + "\n\n")
-    parts.append(emit_lean(emit_loop(hpp)) + "\n")
+    parts.append(emit_lean(emit_loop(hpp, cpp)) + "\n")
     parts.append("end Nstd.Generated.CallbackBody\n")
     text = "".join(parts)
     out = Path(out)
